@@ -12,8 +12,11 @@ import (
 	"errors"
 	"fmt"
 	"math/big"
+	"sort"
 	"strings"
 
+	clp "github.com/Sifchain/sifnode/x/clp"
+	clpkeeper "github.com/Sifchain/sifnode/x/clp/keeper"
 	clptypes "github.com/Sifchain/sifnode/x/clp/types"
 	sdk "github.com/cosmos/cosmos-sdk/types"
 )
@@ -71,10 +74,121 @@ func classUnlock(err error, panicked bool) string {
 		return "err.bal"
 	case errors.Is(err, clptypes.ErrAsymmetricRemove):
 		return "err.asym"
+	case errors.Is(err, clptypes.ErrQueued):
+		return "err.queued"
+	case errors.Is(err, clptypes.ErrRemovalsBlockedByHealth):
+		return "err.health"
 	case errors.Is(err, clptypes.ErrUnableToRemoveLiquidity) && strings.Contains(err.Error(), "greater than total LP units"):
 		return "err.units"
 	}
 	return "err.other"
+}
+
+
+// healthStage: the outcome of the margin-health stage of a removal, computed on the state BEFORE the
+// message with the implementation's own functions (an environment value for the model, like the
+// units an add mints): pass | queue | block | panic.
+func (e *env) healthStage(pool string, lp *clptypes.LiquidityProvider, byUnits bool, w sdk.Uint, wb int64) (res string) {
+	defer func() {
+		if r := recover(); r != nil {
+			res = "panic"
+		}
+	}()
+	ctx := e.ctx
+	if lp == nil || !e.app.MarginKeeper.IsPoolEnabled(ctx, pool) {
+		return "pass"
+	}
+	p, err := e.app.ClpKeeper.GetPool(ctx, pool)
+	if err != nil {
+		return "pass"
+	}
+	nd, ed := p.ExtractDebt(p.NativeAssetBalance, p.ExternalAssetBalance, false)
+	var wn, we sdk.Uint
+	if byUnits {
+		wn, we, _ = clpkeeper.CalculateWithdrawalFromUnits(p.PoolUnits, nd.String(), ed.String(), lp.LiquidityProviderUnits.String(), w)
+	} else {
+		wn, we, _, _ = clpkeeper.CalculateWithdrawal(p.PoolUnits, nd.String(), ed.String(), lp.LiquidityProviderUnits.String(), fmt.Sprint(wb), sdk.ZeroInt())
+	}
+	future := p
+	future.NativeAssetBalance = future.NativeAssetBalance.Sub(wn)
+	future.ExternalAssetBalance = future.ExternalAssetBalance.Sub(we)
+	if e.app.MarginKeeper.CalculatePoolHealth(&future).LT(e.app.MarginKeeper.GetRemovalQueueThreshold(ctx)) {
+		if e.app.ClpKeeper.IsRemovalQueueEnabled(ctx) {
+			return "queue"
+		}
+		return "block"
+	}
+	return "pass"
+}
+
+// mintedByAdd: the units `CalculatePoolUnits` gives for this add on the state before the message.
+func (e *env) mintedByAdd(pool string, r, a sdk.Uint) (m *big.Int, ok bool) {
+	defer func() {
+		if rec := recover(); rec != nil {
+			ok = false
+		}
+	}()
+	ctx := e.ctx
+	p, err := e.app.ClpKeeper.GetPool(ctx, pool)
+	if err != nil {
+		return nil, false
+	}
+	rate := e.app.ClpKeeper.GetPmtpRateParams(ctx).PmtpCurrentRunningRate
+	sell := e.app.ClpKeeper.GetSwapFeeRate(ctx, clptypes.GetSettlementAsset(), false)
+	buy := e.app.ClpKeeper.GetSwapFeeRate(ctx, clptypes.Asset{Symbol: pool}, false)
+	nd, ed := p.ExtractDebt(p.NativeAssetBalance, p.ExternalAssetBalance, false)
+	_, lpUnits, _, _, err := clpkeeper.CalculatePoolUnits(p.PoolUnits, nd, ed, r, a, sell, buy, rate)
+	if err != nil {
+		return nil, false
+	}
+	return lpUnits.BigInt(), true
+}
+
+type lpSnap struct {
+	units   *big.Int
+	unlocks string
+	dump    string
+}
+
+// snapshot of every provider record (4 providers + the whale) of both pools
+func snapAll(e *env, n int) map[string]lpSnap {
+	m := map[string]lpSnap{}
+	for _, pool := range unlockPools {
+		for i := 0; i <= n; i++ {
+			d, lp := lpDump(e, pool, e.accts[i])
+			m[fmt.Sprintf("%s/p%d", pool, i)] = lpSnap{unitsOf(lp), unlocksOf(lp), d}
+		}
+	}
+	return m
+}
+
+// judgeOthers: every provider record other than `skip` that changed during the last message or hook.
+// A fall of its units (gross of `expectUp`, the units an add was computed to mint for that key) is
+// judged like a removal: it needs matured, unexpired requests, consumes them, and counts in the
+// ledger.  Any change is also shown to the model (`obs`): the model knows of no message that touches
+// another provider's record.
+func judgeOthers(out *Out, cause string, before, after map[string]lpSnap, self string, skip string, upKey string, expectUp *big.Int, L, C uint64, h int64) {
+	keys := make([]string, 0, len(before))
+	for k := range before {
+		keys = append(keys, k)
+	}
+	sort.Strings(keys)
+	for _, k := range keys {
+		b, a := before[k], after[k]
+		exp := new(big.Int).Set(b.units)
+		if k == upKey && expectUp != nil {
+			exp.Add(exp, expectUp)
+		}
+		gross := new(big.Int).Sub(exp, a.units)
+		if gross.Sign() > 0 && !(k == skip) {
+			out.Emit(fmt.Sprintf("chk c15.remove tag=%s.decrease.matured %d %d %d %s %s 1", cause, L, C, h, b.unlocks, gross), "true", "chk.decrease", false)
+			out.Emit(fmt.Sprintf("chk c15.consume tag=%s.decrease.consume %d %s %s %s 1", cause, L, b.unlocks, a.unlocks, gross), "true", "chk.decrease", false)
+			out.Emit(fmt.Sprintf("chk c15.once tag=%s.decrease.once %s removal 1 %d 0 %s %s", cause, k, L, gross, a.unlocks), "true", "chk.decrease", false)
+		}
+		if k != self && k != upKey && b.dump != a.dump {
+			out.Emit("obs "+k, a.dump, "obs.changed."+cause, false)
+		}
+	}
 }
 
 var periodChoices = []uint64{0, 0, 1, 1, 3, 3, 50, 50, 1000000}
@@ -91,13 +205,52 @@ func init() {
 			var L, C uint64 = periodChoices[rng.Intn(len(periodChoices))], periodChoices[rng.Intn(len(periodChoices))]
 			e.app.ClpKeeper.SetRewardParams(e.ctx, &clptypes.RewardParams{LiquidityRemovalLockPeriod: L, LiquidityRemovalCancelPeriod: C})
 			out.Emit(fmt.Sprintf("reset %d %d", L, C), "ok", "reset", false)
+			// configuration dimensions of this history: raw external:native ratio of each pool, which pools
+			// are margin enabled, removal queue on/off, removal-queue threshold, margin liabilities
+			ratio := map[string]uint64{}
+			var marginPools []string
+			for _, p := range unlockPools {
+				ratio[p] = []uint64{1, 1, 100}[rng.Intn(3)]
+				if rng.Chance(1, 2) {
+					marginPools = append(marginPools, p)
+				}
+			}
+			queueOn := rng.Chance(1, 2)
+			threshold := []string{"0", "0.1", "0.95", "1"}[rng.Intn(4)]
 			for _, p := range unlockPools {
 				msg := &clptypes.MsgCreatePool{Signer: whale.String(), ExternalAsset: &clptypes.Asset{Symbol: p},
-					NativeAssetAmount: pow10(24), ExternalAssetAmount: pow10(24)}
+					NativeAssetAmount: pow10(24), ExternalAssetAmount: pow10(24).MulUint64(ratio[p])}
 				if err, _ := e.deliver(h, msg.ValidateBasic, func(ctx sdk.Context) error { _, err := e.clp.CreatePool(sdk.WrapSDKContext(ctx), msg); return err }); err != nil {
 					panic(err)
 				}
 			}
+			e.app.ClpKeeper.SetParams(e.ctx, clptypes.Params{MinCreatePoolThreshold: 100, EnableRemovalQueue: queueOn})
+			mp := e.app.MarginKeeper.GetParams(e.ctx)
+			mp.Pools = marginPools
+			mp.RemovalQueueThreshold = sdk.MustNewDecFromStr(threshold)
+			e.app.MarginKeeper.SetParams(e.ctx, &mp)
+			liab := "none"
+			for _, p := range marginPools { // liabilities as open margin positions leave them in the pool record
+				pl, err := e.app.ClpKeeper.GetPool(e.ctx, p)
+				if err != nil {
+					panic(err)
+				}
+				switch rng.Intn(3) {
+				case 0:
+					pl.ExternalLiabilities = pl.ExternalAssetBalance.QuoUint64(10)
+					liab = "ext"
+				case 1:
+					pl.ExternalLiabilities = pl.ExternalAssetBalance.QuoUint64(20)
+					pl.NativeLiabilities = pl.NativeAssetBalance.QuoUint64(50)
+					liab = "both"
+				}
+				if err := e.app.ClpKeeper.SetPool(e.ctx, &pl); err != nil {
+					panic(err)
+				}
+			}
+			out.Emit(fmt.Sprintf("# cfg ratio=%v margin=%v queue=%v threshold=%s liabilities=%s", ratio, marginPools, queueOn, threshold, liab), "bad-op",
+				fmt.Sprintf("cfg.margin%d.queue%v.thr%s", len(marginPools), queueOn, threshold), false)
+			lastHookHeight := h
 			for k := 0; k < perHistory && done < n; k++ {
 				done++
 				pi := rng.Intn(nProv)
@@ -135,6 +288,16 @@ func init() {
 				default:
 					h += int64(1 + rng.Intn(3))
 				}
+				if h > lastHookHeight { // block hooks of the clp module, once per new height
+					lastHookHeight = h
+					hb := snapAll(e, nProv)
+					hctx, hwrite := e.ctx.WithBlockHeight(h).CacheContext()
+					if protect(func() string { clp.BeginBlocker(hctx, e.app.ClpKeeper); clp.EndBlocker(hctx, e.app.ClpKeeper); return "ok" }) == "ok" {
+						hwrite()
+					}
+					judgeOthers(out, "hook", hb, snapAll(e, nProv), "", "", "", nil, L, C, h)
+				}
+				snapBefore := snapAll(e, nProv)
 				units := unitsOf(lpBefore)
 				// what the code would call matured and unexpired right now (generator guidance only)
 				maturedNow := new(big.Int)
@@ -218,6 +381,7 @@ func init() {
 					got := e.app.ClpKeeper.GetRewardsParams(e.ctx)
 					L, C = got.LiquidityRemovalLockPeriod, got.LiquidityRemovalCancelPeriod
 					out.Emit(fmt.Sprintf("par %d %d %d", h, L, C), "ok", "par", true)
+					judgeOthers(out, "par", snapBefore, snapAll(e, nProv), "", "", "", nil, L, C, h)
 					continue
 				case op < 22: // add liquidity (symmetric: the pool was created 1:1)
 					var amt sdk.Uint
@@ -229,17 +393,22 @@ func init() {
 					default:
 						amt = sdk.NewUintFromBigInt(rng.BigBits(10 + rng.Intn(60)))
 					}
-					msg := &clptypes.MsgAddLiquidity{Signer: prov.String(), ExternalAsset: &clptypes.Asset{Symbol: pool}, NativeAssetAmount: amt, ExternalAssetAmount: amt}
+					ext := amt.MulUint64(ratio[pool]) // about the pool's own ratio
+					msg := &clptypes.MsgAddLiquidity{Signer: prov.String(), ExternalAsset: &clptypes.Asset{Symbol: pool}, NativeAssetAmount: amt, ExternalAssetAmount: ext}
+					mintedCalc, okCalc := e.mintedByAdd(pool, amt, ext)
 					err, pan := e.deliver(h, msg.ValidateBasic, func(ctx sdk.Context) error { _, err := e.clp.AddLiquidity(sdk.WrapSDKContext(ctx), msg); return err })
-					if err != nil || pan {
+					if err != nil || pan || !okCalc {
 						out.Emit(fmt.Sprintf("# add %s refused: %v", key, err), "bad-op", "add.refused", false)
+						judgeOthers(out, "addrefused", snapBefore, snapAll(e, nProv), "", "", "", nil, L, C, h)
 						continue
 					}
 					dump, lpAfter := lpDump(e, pool, prov)
-					minted := new(big.Int).Sub(unitsOf(lpAfter), units)
-					out.Emit(fmt.Sprintf("add %d %s %s", h, key, minted), "ok "+dump, "add", true)
+					// the units this add mints are what CalculatePoolUnits says on the state before it; whatever
+					// else happened to anybody's units inside the message shows as a difference
+					out.Emit(fmt.Sprintf("add %d %s %s", h, key, mintedCalc), "ok "+dump, "add", true)
 					out.Emit(fmt.Sprintf("chk c15.outstanding tag=add.outstanding %s %s", unitsOf(lpAfter), unlocksOf(lpAfter)), "true", "chk.outstanding", false)
 					out.Emit(fmt.Sprintf("chk c15.once tag=add.once %s other 1 %d 0 0 %s", key, L, unlocksOf(lpAfter)), "true", "chk.once", false)
+					judgeOthers(out, "add", snapBefore, snapAll(e, nProv), key, "", key, mintedCalc, L, C, h)
 					continue
 				}
 				var line, kind string
@@ -269,7 +438,7 @@ func init() {
 						}
 					}
 					msg := &clptypes.MsgRemoveLiquidityUnits{Signer: prov.String(), ExternalAsset: &clptypes.Asset{Symbol: pool}, WithdrawUnits: w}
-					line = fmt.Sprintf("tx %d %s rmu %s", h, key, w)
+					line = fmt.Sprintf("tx %d %s rmu %s %s", h, key, w, e.healthStage(pool, lpBefore, true, w, 0))
 					err, pan = e.deliver(h, msg.ValidateBasic, func(ctx sdk.Context) error { _, err := e.clp.RemoveLiquidityUnits(sdk.WrapSDKContext(ctx), msg); return err })
 				default:
 					kind = "removal"
@@ -297,7 +466,7 @@ func init() {
 						as = []int64{1, -1, 10000, -10000, 10001, -10001}[rng.Intn(6)]
 					}
 					msg := &clptypes.MsgRemoveLiquidity{Signer: prov.String(), ExternalAsset: &clptypes.Asset{Symbol: pool}, WBasisPoints: sdk.NewInt(wb), Asymmetry: sdk.NewInt(as)}
-					line = fmt.Sprintf("tx %d %s rm %d %d", h, key, wb, as)
+					line = fmt.Sprintf("tx %d %s rm %d %d %s", h, key, wb, as, e.healthStage(pool, lpBefore, false, sdk.ZeroUint(), wb))
 					err, pan = e.deliver(h, msg.ValidateBasic, func(ctx sdk.Context) error { _, err := e.clp.RemoveLiquidity(sdk.WrapSDKContext(ctx), msg); return err })
 				}
 				cls := classUnlock(err, pan)
@@ -319,6 +488,11 @@ func init() {
 				}
 				out.Emit(fmt.Sprintf("chk c15.outstanding tag=%s.outstanding %s %s", kind, unitsOf(lpAfter), unlocksOf(lpAfter)), "true", "chk.outstanding", false)
 				out.Emit(fmt.Sprintf("chk c15.once tag=%s.once %s %s %s %d %s %s %s", kind, key, kind, acc, L, reqUnits, burned, unlocksOf(lpAfter)), "true", "chk.once", false)
+				skip := ""
+				if kind == "removal" {
+					skip = key // the signer's own record was judged just above
+				}
+				judgeOthers(out, kind, snapBefore, snapAll(e, nProv), key, skip, "", nil, L, C, h)
 			}
 		}
 	}
